@@ -845,6 +845,10 @@ def m_saturating_sub(ex, callee, args):
     a, b = args; lo = ty_range(a.ty)[0]
     d = a.e - b.e
     return Scalar(z_ite(d < lo, lo, d), a.ty)
+def m_saturating_add(ex, callee, args):
+    a, b = args; hi = ty_range(a.ty)[1]
+    d = a.e + b.e
+    return Scalar(z_ite(d > hi, hi, d), a.ty)
 def m_checked(ex, callee, args):
     op = {'checked_mul': 'Mul', 'checked_add': 'Add', 'checked_sub': 'Sub'}[callee.split('::')[-1]]
     r = ex.binop(op + 'WithOverflow', args[0], args[1])
@@ -902,11 +906,14 @@ STD_MODELS = [
     (r'^std::string::String::new$', m_string_new),
     (r'^std::string::String::push_str$', m_string_push),
     (r'^std::string::String::is_empty$', m_string_is_empty),
+    (r'^<std::string::String as PartialEq>::eq$', lambda ex, c, a: boolv(strip(ex, a[0]).text == strip(ex, a[1]).text)),
+    (r'^<std::string::String as PartialEq>::ne$', lambda ex, c, a: boolv(strip(ex, a[0]).text != strip(ex, a[1]).text)),
     (r'^<std::string::String as Deref>::deref$', lambda ex, c, a: ex.deref_val(a[0])),
     (r'^<std::string::String as Clone>::clone$', lambda ex, c, a: strip(ex, a[0])),
     (r'^(format|std::fmt::format|<str as ToString>::to_string|<std::string::String as From<&str>>::from|<.* as ToString>::to_string|std::fmt::format::format_inner|alloc::fmt::format)$', m_fmt),
     (r'^(core::fmt::rt::Argument::<.*>::new_\w+::<.*>|Arguments::<.*>::new.*|Arguments::<.*>::from_str.*|std::io::_print|std::io::_eprint)$', m_opaque),
     (r'^must_use::<.*>$', m_identity),
+    (r'^<(u8|u16|u32|u64|usize|i32|i64) as From<\1>>::from$', m_identity),
     (r'^(std::rt::panic_fmt|core::panicking::\w+|std::rt::begin_panic.*|core::panicking::assert_failed.*|std::process::exit|core::panicking::panic.*)(::<.*>)?$', m_panic),
     (r'^Vec::<.*>::len$', m_vec_len),
     (r'^core::slice::<impl \[.*\]>::len$', m_vec_len),
@@ -1009,6 +1016,7 @@ STD_MODELS = [
     (r'^<.* as Ord>::(min|max)$', m_ord_min_max_generic),
     (r'^core::num::<impl \w+>::div_ceil$', m_div_ceil),
     (r'^core::num::<impl \w+>::saturating_sub$', m_saturating_sub),
+    (r'^core::num::<impl \w+>::saturating_add$', m_saturating_add),
     (r'^core::num::<impl \w+>::checked_(mul|add|sub)$', m_checked),
     (r'^core::num::<impl \w+>::abs$', m_abs),
     (r'^std::mem::swap::<.*>$', m_mem_swap), (r'^std::mem::replace::<.*>$', m_mem_replace), (r'^std::mem::take::<Vec<.*>>$', m_mem_take_vec),
